@@ -81,6 +81,9 @@ inductive Phase
 structure Cfg where
   path : Path
   sasl : Bool
+  /-- `splitHostPortNumber(address)` succeeds (the port of the dialled address is a number); both
+      paths evaluate it only inside their SASL branch, after the socket is open -/
+  addrOk : Bool := true
   deriving DecidableEq, Repr
 
 structure State where
@@ -106,6 +109,10 @@ exchange; a Dialer without SASL hands the Conn out untouched, a Transport still 
 def start (c : Cfg) : State :=
   match c.path, c.sasl with
   | .dialer, false => { phase := .ready, log := [], closed := false, result := none }
+  | .dialer, true =>
+    -- `Dialer.connect`: host/port for sasl.Metadata are computed before anything is written
+    if c.addrOk then { phase := .awaitVersions, log := [.wrote .apiVersions], closed := false, result := none }
+    else { phase := .failed, log := [], closed := true, result := some .other }
   | _, _ => { phase := .awaitVersions, log := [.wrote .apiVersions], closed := false, result := none }
 
 /-- `apiVersionMap.negotiate(saslHandshake, v0, v1)` (Conn) — only the advertised max matters, a key
@@ -136,8 +143,11 @@ def react (c : Cfg) : Phase → Env → Option Act
         | none => some (failWith .other)
         | some v => some { next := .awaitHandshake v, write := some (.saslHandshake v) }
       | .transport =>
-        let v := selectTransport hs
-        some { next := .awaitHandshake v, write := some (.saslHandshake v) }
+        -- `connGroup.connect`: host/port for sasl.Metadata are computed after the ApiVersions exchange
+        if !c.addrOk then some (failWith .other)
+        else
+          let v := selectTransport hs
+          some { next := .awaitHandshake v, write := some (.saslHandshake v) }
   | .awaitVersions, .eof => some (failWith .other)
   | .awaitVersions, .ioerr => some (failWith .other)
   -- SaslHandshake answer
